@@ -17,6 +17,29 @@ path = os.path.join(VERIF, "known_findings.json")
 old = core.load_known(path) if os.path.exists(path) else {"known": [], "fixed": []}
 old_known = {e["key"]: e for e in old["known"]}
 old_fixed = {e["key"]: e for e in old["fixed"]}
+FIX_COMMITS = {  # (property, rule) -> fix commit in /repo
+    ("C13", "P1"): "094a7c2", ("C13", "P2"): "094a7c2", ("C13", "P3"): "094a7c2",
+    ("C03", "H1"): "7749e53", ("C06", "U2"): "a91c652", ("C15", "M2"): "5f5bd5b", ("C15", "M3"): "d1813fa",
+    ("C12", "A1"): "359268c", ("C12", "A2"): "84d1c7d", ("C11", "D1"): "18618bf", ("C11", "D2"): "40f1949",
+    ("C11", "R1"): "467b51c", ("C16", "F1"): "157681b", ("C16", "Q2"): "ed01309", ("C16", "Q3"): "d4aff69",
+    ("C04", "A2"): "a055c8d",
+}
+KNOWN_DEMOS = {
+    ("C01", "O2"): ("findings/demos/demo_c01_o2_effect_then_4xx.py",
+                    "not small: MKCOL/MKCALENDAR need the whole body parsed and shape-checked before create_collection (apply_modify_prop "
+                    "raises while applying), PROPPATCH needs all-or-nothing application with rollback"),
+    ("C01", "H3"): ("findings/demos/demo_c01_h3_reserved_names.py",
+                    "needs a decision on how a reserved name is refused (status / precondition); no existing refusal maps onto it"),
+    ("C05", "L1"): ("findings/demos/demo_c05_lock_discipline.py", "not small: the decision reads have to move inside the index lock (restructures import_one/_import_one)"),
+    ("C05", "L2"): ("findings/demos/demo_c05_lock_discipline.py", "not small: needs a lock or compare-and-set on the observed head for bare repositories"),
+    ("C05", "L3"): ("findings/demos/demo_c05_lock_discipline.py", "not small: needs a per-store lock around the uid maps"),
+    ("C09", "K4"): ("findings/demos/demo_c09_k4_infit.py", "needs a design decision (store inf-it settings in the repository or outside the working tree)"),
+    ("C10", "X1"): ("findings/demos/demo_c10_index_transparency.py", "not small: parameter indexes have to be implemented in ICalendarFile._get_index"),
+    ("C10", "X3"): ("findings/demos/demo_c10_index_transparency.py", "not small: the index has to keep values grouped per component"),
+    ("C10", "X7"): ("findings/demos/demo_c10_index_transparency.py", "small but entangled with X1/X3 (what the index stores for a member that cannot be parsed)"),
+    ("C11", "R2"): ("findings/demos/demo_c11_r2_m1.py", "not small: recurrence expansion in the time-range path"),
+    ("C11", "M1"): ("findings/demos/demo_c11_r2_m1.py", "cannot be repaired without editing the suite: test_icalendar.TextMatchTest.test_category pins the 'equals' behaviour"),
+}
 known, fixed = [], []
 for p in sorted(META):
     cur = core.run_property(p, cur_repo, "quick")
@@ -29,15 +52,16 @@ for p in sorted(META):
         bk.setdefault(o.key, o)
     for k, o in ck.items():
         e = old_known.get(k, {})
+        demo, disp = KNOWN_DEMOS.get((p, o.rule), ("", ""))
         known.append({"property": p, "rule": o.rule, "key": k,
-                      "what": e.get("what", o.message), "demo": e.get("demo", ""),
-                      "disposition": e.get("disposition", "")})
+                      "what": o.message, "demo": demo,
+                      "disposition": "known (recorded, not repaired): " + disp})
     for k, o in bk.items():
         if k in ck:
             continue
         e = old_fixed.get(k, {})
-        fixed.append({"property": p, "rule": o.rule, "key": k, "commit": e.get("commit", ""),
-                      "what": e.get("what", o.message), "demo": e.get("demo", "")})
+        fixed.append({"property": p, "rule": o.rule, "key": k, "commit": FIX_COMMITS.get((p, o.rule), ""),
+                      "what": o.message, "demo": "findings/demos/demo_fixed_defects.py"})
 json.dump({"_comment": "keyed by property|rule|construct|detail - never by line number; 'fixed' entries suppress nothing",
            "known": known, "fixed": fixed}, open(path, "w"), indent=1)
 print(len(known), "known,", len(fixed), "fixed")
